@@ -14,23 +14,27 @@ Definition litU (v : Z) : cval := (U32, v).     (* 0U *)
      [checked] if(b == 0) panic;
      stype q = a / b;
      return q * b == a ? q : q - ((a < 0) ^ (b < 0));                                   *)
+(* the part of the body after the `b == -1` line *)
+Definition h_idiv_rest (m : cmode) (t : ity) (checked : bool) (a b : Z) : outcome :=
+  let A : cval := (t, a) in let B : cval := (t, b) in
+  if checked && (b =? 0) then OPanic
+  else
+    match c_div A B with
+    | None => OUB
+    | Some q0 =>
+      let Q : cval := (to_signed t, cwrap (to_signed t) (snd q0)) in
+      ret t (qb <- c_mul m Q B ;;
+             c <- c_eq qb A ;;
+             if c_truth c then Some Q
+             else (x <- c_lt A (lit 0) ;; y <- c_lt B (lit 0) ;; z <- c_bxor x y ;; c_sub m Q z))
+    end.
 Definition h_idiv (m : cmode) (t : ity) (checked : bool) (a b : Z) : outcome :=
   let A : cval := (t, a) in let B : cval := (t, b) in
   match c_eq B (lit (-1)) with
   | None => OUB
   | Some c1 =>
     if c_truth c1 then ret t (c_sub m (litU 0) (c_cast (to_unsigned t) A))
-    else if checked && (b =? 0) then OPanic
-    else
-      match c_div A B with
-      | None => OUB
-      | Some q0 =>
-        let Q : cval := (to_signed t, cwrap (to_signed t) (snd q0)) in
-        ret t (qb <- c_mul m Q B ;;
-               c <- c_eq qb A ;;
-               if c_truth c then Some Q
-               else (x <- c_lt A (lit 0) ;; y <- c_lt B (lit 0) ;; z <- c_bxor x y ;; c_sub m Q z))
-      end
+    else h_idiv_rest m t checked a b
   end.
 
 (* nelua_imod_T / nelua_assert_imod_T
@@ -38,25 +42,34 @@ Definition h_idiv (m : cmode) (t : ity) (checked : bool) (a b : Z) : outcome :=
      [checked] if(b == 0) panic;
      T r = a % b;
      return (r != 0 && (a ^ b) < 0) ? r + b : r;                                          *)
-Definition h_imod (m : cmode) (t : ity) (checked : bool) (a b : Z) : outcome :=
+Definition h_imod_rest (m : cmode) (t : ity) (checked : bool) (a b : Z) : outcome :=
   let A : cval := (t, a) in let B : cval := (t, b) in
+  if checked && (b =? 0) then OPanic
+  else
+    match c_rem A B with
+    | None => OUB
+    | Some r0 =>
+      let R : cval := (t, cwrap t (snd r0)) in
+      ret t (c <- c_ne R (lit 0) ;;
+             if c_truth c then
+               (x <- c_bxor A B ;; d <- c_lt x (lit 0) ;;
+                if c_truth d then c_add m R B else Some R)
+             else Some R)
+    end.
+Definition h_imod (m : cmode) (t : ity) (checked : bool) (a b : Z) : outcome :=
+  let B : cval := (t, b) in
   match c_eq B (lit (-1)) with
   | None => OUB
   | Some c1 =>
-    if c_truth c1 then ret t (Some (lit 0))
-    else if checked && (b =? 0) then OPanic
-    else
-      match c_rem A B with
-      | None => OUB
-      | Some r0 =>
-        let R : cval := (t, cwrap t (snd r0)) in
-        ret t (c <- c_ne R (lit 0) ;;
-               if c_truth c then
-                 (x <- c_bxor A B ;; d <- c_lt x (lit 0) ;;
-                  if c_truth d then c_add m R B else Some R)
-               else Some R)
-      end
+    if c_truth c1 then ret t (Some (lit 0)) else h_imod_rest m t checked a b
   end.
+
+(* the helpers as a function of where the generator puts the `b == -1` line: before `if checked`
+   (guard_first, the code as it is) or inside it after the zero check *)
+Definition emitted_idiv_helper (guard_first : bool) (m : cmode) (t : ity) (checked : bool) (a b : Z) : outcome :=
+  if guard_first || checked then h_idiv m t checked a b else h_idiv_rest m t false a b.
+Definition emitted_imod_helper (guard_first : bool) (m : cmode) (t : ity) (checked : bool) (a b : Z) : outcome :=
+  if guard_first || checked then h_imod m t checked a b else h_imod_rest m t false a b.
 
 (* nelua_shl_T(T a, stype b)
      if(b >= 0 && b < bitsize) return ((utype)a) << b;
@@ -131,13 +144,14 @@ Definition op_shl_const (m : cmode) (t : ity) (a n : Z) : outcome :=
 Definition op_asr_const (t : ity) (a n : Z) : outcome := ret t (c_shr (t, a) (lit n)).
 
 (* ---- the dispatch of cbuiltins.operators.idiv / mod / shl / shr on integers ----
+   [guard_first] = position of the `b == -1` line in the helper generator (scraped into Gen.v);
    [maybe_neg] = lattr:is_maybe_negative() or rattr:is_maybe_negative();
    [nochecks]  = context.pragmas.nochecks;  [cnt] = Some n when the count is a compile-time
    constant *)
-Definition emit_idiv (m : cmode) (t : ity) (maybe_neg nochecks : bool) (a b : Z) : outcome :=
-  if maybe_neg then h_idiv m t (negb nochecks) a b else op_cdiv t a b.
-Definition emit_imod (m : cmode) (t : ity) (maybe_neg nochecks : bool) (a b : Z) : outcome :=
-  if maybe_neg then h_imod m t (negb nochecks) a b else op_crem t a b.
+Definition emit_idiv (guard_first : bool) (m : cmode) (t : ity) (maybe_neg nochecks : bool) (a b : Z) : outcome :=
+  if maybe_neg then emitted_idiv_helper guard_first m t (negb nochecks) a b else op_cdiv t a b.
+Definition emit_imod (guard_first : bool) (m : cmode) (t : ity) (maybe_neg nochecks : bool) (a b : Z) : outcome :=
+  if maybe_neg then emitted_imod_helper guard_first m t (negb nochecks) a b else op_crem t a b.
 Definition emit_shl (m : cmode) (t : ity) (cnt_comptime : bool) (a b : Z) : outcome :=
   if cnt_comptime && (0 <=? b) && (b <? ibits t) then
     (if isigned t then op_shl_const m t a b else ret t (c_shl m (t, a) (lit b)))
